@@ -73,25 +73,31 @@ var (
 	// the names and targets an escape needs, plus the CWD victim
 	coreNames   = []string{"a", "b", "a/c", "../../x", ""}
 	coreTargets = []string{".", "..", "b", "l/..", "b/evil", "victim"}
+	miniNames   = []string{"a", "b", "../../x", ""}
+	miniTargets = []string{".", "l/..", "b/evil", "victim"}
 )
 
 func families(tier string) []family {
 	full := product(fullNames, fullTargets, "rdsh")
+	core := product(coreNames, coreTargets, "rdsh")
+	mini := product(miniNames, miniTargets, "rdsh")
 	link := append(product([]string{"a", "b", "l"}, []string{".", "..", "a/..", "l/..", "b/evil"}, "s"), entry{kind: 'r', name: "a"}, entry{kind: 'r', name: "b"})
 	chain := append(product([]string{"a", "b", "l", "m"}, []string{".", "l/..", "m/..", "b/evil"}, "s"), entry{kind: 'r', name: "a"})
-	fams := []family{
-		{name: "full3", title: "n", alpha: full, depth: 3, states: []string{"empty", "files", "uplink"}, nsh: 96},
-		{name: "rootlinks4", title: ".", alpha: link, depth: 4, states: []string{"empty"}, nsh: 4},
+	three := []string{"empty", "files", "uplink"}
+	if tier != "thorough" {
+		return []family{
+			{name: "full2", title: "n", alpha: full, depth: 2, states: three, nsh: 8},
+			{name: "core3", title: "n", alpha: core, depth: 3, states: three, nsh: 48},
+			{name: "rootlinks4", title: ".", alpha: link, depth: 4, states: []string{"empty"}, nsh: 16},
+		}
 	}
-	if tier == "thorough" {
-		core := product(coreNames, coreTargets, "rdsh")
-		fams = append(fams,
-			family{name: "core4", title: "n", alpha: core, depth: 4, states: []string{"empty", "files", "uplink"}, nsh: 192},
-			family{name: "rootlinks5", title: ".", alpha: link, depth: 5, states: []string{"empty", "files"}, nsh: 32},
-			family{name: "chain5", title: "n", alpha: chain, depth: 5, states: []string{"empty"}, nsh: 32},
-		)
+	return []family{
+		{name: "full3", title: "n", alpha: full, depth: 3, states: []string{"empty", "uplink"}, nsh: 256},
+		{name: "core3", title: "n", alpha: core, depth: 3, states: []string{"files"}, nsh: 48},
+		{name: "mini4", title: "n", alpha: mini, depth: 4, states: three, nsh: 128},
+		{name: "rootlinks5", title: ".", alpha: link, depth: 5, states: []string{"empty", "files"}, nsh: 64},
+		{name: "chain5", title: "n", alpha: chain, depth: 5, states: []string{"empty"}, nsh: 64},
 	}
-	return fams
 }
 
 func tarJobs(tier string) []driver.Job {
@@ -399,6 +405,12 @@ func (t *tarRun) runSeq(seq []int, parent info, parentOK, judge, wantInfo bool) 
 			lines = append(lines, fmt.Sprintf("%s in %s: %s: %s => %s", ch.what, where(ch.path), ch.path, ch.old, ch.new))
 			if strings.Contains(aliased, ch.path+" = ") {
 				mech = "hard"
+			}
+			// the alias may have been replaced by a later entry: a hard-link entry that names this CWD file
+			for _, i := range seq {
+				if e := t.fam.alpha[i]; e.kind == 'h' && ch.what == "content changed" && ch.path == "<top>/1/2/3/cwd/"+e.target {
+					mech = "hard"
+				}
 			}
 		}
 		sig := "tar: object outside the working directory changed"
